@@ -105,6 +105,11 @@ LastHandled(h, L, k) ==
 R1(cf, h) == \A k \in 1..Len(h) : Is(h[k], "Handle") =>
                "Y" \in RoutePV(cf.lists[h[k].l][h[k].r], h[k].vis, h[k].pos)
 
+\* R1e (C05: matching that ends by a matcher error invokes no further handler): a route whose matcher sets can only FAIL on
+\* the visible bytes - every possible verdict is the error - did not have its handlers run
+R1e(cf, h) == \A k \in 1..Len(h) : Is(h[k], "Handle") =>
+                RoutePV(cf.lists[h[k].l][h[k].r], h[k].vis, h[k].pos) # {"E"}
+
 \* R2: routes run in configured order without repetition
 R2(cf, h) == \A k \in 1..Len(h) : Is(h[k], "Handle") => h[k].r > LastHandled(h, h[k].l, k)
 
@@ -211,6 +216,7 @@ B3(cf, h, limit, chunk) == \A k \in 1..Len(h) : Is(h[k], "Buf") => h[k].n <= lim
 \* names of the violated clauses (empty set = history accepted); used by the trace spec
 Violations(cf, h, limit, chunk) ==
   (IF R1(cf, h) THEN {} ELSE {"R1 handlers ran although no matcher set can match the visible bytes"})
+  \cup (IF R1e(cf, h) THEN {} ELSE {"R1e the handlers of a route ran although its matchers can only fail on the visible bytes (a matcher error was swallowed)"})
   \cup (IF R2(cf, h) THEN {} ELSE {"R2 routes out of order or repeated"})
   \cup (IF R3(cf, h) THEN {} ELSE {"R3 a route decided as matching was passed over"})
   \cup (IF R4(cf, h) THEN {} ELSE {"R4 something ran after terminal handler / abort / handler error"})
